@@ -258,6 +258,12 @@ def run(tier):
                     if first[0] is None and all(honourable(k, val) for k, val in logical if k):
                         # a missing reply is only believed after a second, patient attempt (loaded machine)
                         first = first_reply(srv.addr, kind, name if kind == "RRQ" else f"w{i}_again.bin", wire, patience=3.0)
+                    if (kind == "WRQ" and first[0] == "DATA") or (kind == "RRQ" and first[0] == "ACK"):
+                        # a datagram of the wrong direction is no answer to this request: it strayed in from an earlier
+                        # probe's transfer on this host (a server still retransmitting to a port that was re-used).
+                        # Ask again from a fresh socket; only what repeats is the server's answer.
+                        classes["foreign-datagram-ignored"] = classes.get("foreign-datagram-ignored", 0) + 1
+                        first = first_reply(srv.addr, kind, name if kind == "RRQ" else f"w{i}_again2.bin", wire, patience=3.0)
                     replay = {"engine": "net", "config": cfg, "kind": kind, "name": name, "options_on_wire": wire, "first_reply": str(first)[:200]}
                     outcome = check_first_reply(v, cfg, kind, logical, 700, first, None, replay)
                     if first[0] is not None and single and first[2] != srv.addr:
